@@ -132,6 +132,24 @@ def run(ctx: Ctx):
                 c_ = np.asarray(again.toarray() if output == "sparse" else again, dtype=float)
                 if c_.shape != b.shape or not np.array_equal(c_, b, equal_nan=True):
                     ctx.fail(f"the spec of part {sf!r} does not regenerate its part", rp)
+            # the attached specs re-used AS A WHOLE (ModelSpecs.get_model_matrix) on the same data with the caller's rows: the nulls of every
+            # part are found again, so all parts come back row-aligned and equal to the first result, and the set is extended to the joint one
+            dr2 = set(cd)
+            try:
+                whole = flatten(mms.model_spec.get_model_matrix(df, drop_rows=dr2))
+                if len(whole) != len(mats):
+                    ctx.fail(f"re-using the attached specs as a whole gave {len(whole)} parts for {len(mats)}", rp)
+                for sf, m_, w_ in zip(formulas, mats, whole):
+                    b = np.asarray(m_.toarray() if output == "sparse" else m_, dtype=float)
+                    c_ = np.asarray(w_.toarray() if output == "sparse" else w_, dtype=float)
+                    if c_.shape != b.shape or not np.array_equal(c_, b, equal_nan=True):
+                        ctx.fail(f"re-using the attached specs as a whole: part {sf!r} has shape {c_.shape}, the first build gave {b.shape} "
+                                 f"(parts {'differ in values' if c_.shape == b.shape else 'are no longer row-aligned'})", rp)
+                        break
+                if dr2 != dr:
+                    ctx.fail(f"re-using the attached specs as a whole reports the dropped rows {sorted(dr2)}, the first build {sorted(dr)}", rp)
+            except Exception as e:
+                ctx.fail(f"re-using the attached specs as a whole: {type(e).__name__}: {e}", rp)
         lit = "{| p_frame := %s; p_nrows := %d%%nat; p_cfg := %s; p_parts := %s; p_expect := %s |}" % (
             frame.coq(), frame.n, M.cfg_coq(efr, na, cd), clist(M.terms_coq(p) for p in parts_terms), exp)
         lits.append(lit)
